@@ -3,6 +3,7 @@ import TextxVerif.ProcWalk
 import TextxVerif.ProcLocate
 import TextxVerif.ProcRaise
 import TextxVerif.ProcLoad
+import TextxVerif.ProcMatch
 /-! Driver for the processor models (C13, C33).
 ops:
   {"op":"objproc","kinds":[0|1|2 …],"reg":[cls…],"user":[cls…],"script":[[rule,id,R]…],
@@ -30,6 +31,10 @@ ops:
         → the models are walked in order with the processor of `rule` raising on object `id` (Proc.loadE);
           the site is that of the object the failing call is made on; the answer also carries
           "fail":{"model":k,"call":[rule,id],"before":[[rule,id]…]}  (or {"nofail":true} when nothing raises)
+     "mtree":{"tree":T,"raise":[rule,pos],"reg":[rule…],"f":n|null,"text":str}   T ::= [rule,pos] | [rule,pos,[T…]]
+        → (kind mtch) the match parse tree is processed as process_match does (Proc.matchE) with the processor of
+          `rule` raising for the node at `pos`; the site is the start of that node; the answer also carries
+          "fail":{"call":[rule,pos],"before":[[rule,pos]…]} (calls of rules in "reg" only) or {"nofail":true}
 -/
 open Lean Wire Proc
 
@@ -143,6 +148,24 @@ def optJson : Option Nat → Json
   | some n => toJson n
   | none => .null
 
+mutual
+partial def parseMNode (j : Json) : Option MNode := do
+  let a ← asArr? j
+  let r ← asNat? (← a[0]?)
+  let p ← asNat? (← a[1]?)
+  match a[2]? with
+  | none => pure (.term r p)
+  | some ks => do
+    let ks ← asArr? ks
+    pure (.nonterm r p (← parseMNodes ks.toList))
+partial def parseMNodes : List Json → Option MNodes
+  | [] => some .nil
+  | x :: xs => do
+    let n ← parseMNode x
+    let r ← parseMNodes xs
+    pure (.cons n r)
+end
+
 def handle (j : Json) : Json :=
   match getStr? j "op" with
   | some "objproc" =>
@@ -208,8 +231,25 @@ def handle (j : Json) : Json :=
                                                       ("c", optJson l.col), ("n", optJson l.nchar)])] ++ extra)
     match kind, getBool? j "wrapped", raised with
     | some k, some w, some r =>
-      match j.getObjVal? "walk", j.getObjVal? "src", j.getObjVal? "site" with
-      | .ok wj, _, _ =>
+      match j.getObjVal? "mtree", j.getObjVal? "walk", j.getObjVal? "src", j.getObjVal? "site" with
+      | .ok mj, _, _, _ =>
+        match k, (j.getObjVal? "mtree").toOption.bind (fun m => (m.getObjVal? "tree").toOption.bind parseMNode),
+              getNatList? mj "raise", getNatList? mj "reg", optNat mj "f", getStr? mj "text" with
+        | .mtch, some t, some [rr, rp], some reg, some file, some text =>
+          let R : Nat → Nat → Bool := fun a b => a == rr && b == rp
+          match matchE R t, matchErr file text.toList R w r t with
+          | .ok _, _ => Json.mkObj [("nofail", true)]
+          | .error _, none => badOp
+          | .error f, some res =>
+            let cJ (c : MCall) : Json := Json.arr #[toJson c.rule, toJson c.pos]
+            let extra := [("fail", Json.mkObj [("call", cJ f.call),
+                            ("before", Json.arr ((f.log.filter (fun c => reg.contains c.rule)).map cJ).toArray)])]
+            match res with
+            | .other => Json.mkObj ([("other", Json.bool true)] ++ extra)
+            | .textx l => Json.mkObj ([("textx", Json.mkObj [("f", optJson l.filename), ("l", optJson l.line),
+                                                            ("c", optJson l.col), ("n", optJson l.nchar)])] ++ extra)
+        | _, _, _, _, _, _ => badOp
+      | _, .ok wj, _, _ =>
         -- the failing call and its site are determined by the walk
         let srcs : Option (List (Option Nat × List Char)) := (getArr? wj "srcs").bind fun a =>
           a.toList.mapM fun x => do pure (← optNat x "f", (← getStr? x "text").toList)
@@ -245,17 +285,17 @@ def handle (j : Json) : Json :=
                                                               ("c", optJson l.col), ("n", optJson l.nchar)])] ++ extra)
           else Json.mkObj [("err", "not-wf")]
         | _, _, _, _, _, _, _ => badOp
-      | _, .ok sj, _ =>
+      | _, _, .ok sj, _ =>
         match optNat sj "f", getStr? sj "text", getNat? sj "pos", getNat? sj "end" with
         | some f, some text, some pos, some pe => answer k w r (siteOf f text.toList pos pe) []
         | _, _, _, _ => badOp
-      | _, _, .ok sj =>
+      | _, _, _, .ok sj =>
         let site : Option Site := do
           pure ⟨← optNat sj "f", ← getNat? sj "l", ← getNat? sj "c", ← getNat? sj "n"⟩
         match site with
         | some s => answer k w r s []
         | none => badOp
-      | _, _, _ => badOp
+      | _, _, _, _ => badOp
     | _, _, _ => badOp
   | _ => badOp
 
